@@ -49,6 +49,14 @@ Section C01.
   Proof. exact (imex_fixed_point_is_collocation kO kI kadd kmul ksub kopp Rth M dt t0 nodes Q solve feval). Qed.
 
   (* zero residual <=> collocation equation (the residual IS the defect) *)
+  Theorem C01_imex_collocation_is_fixed_point : forall QI QE u f tau,
+    solver_left_inverse kmul ksub solve feval 0 -> feval_ext feval -> lower_triangular kO QI -> strictly_lower_triangular kO QE ->
+    consistent kadd kmul M dt t0 nodes feval u f ->
+    collocation2 kO kadd kmul M dt Q u f tau ->
+    let r := imex_update kO kadd kmul ksub M dt t0 nodes Q solve feval QI QE u f tau in
+    forall m, 1 <= m <= M -> forall x, fst r m x = u m x.
+  Proof. exact (imex_collocation_is_fixed_point kO kI kadd kmul ksub kopp Rth M dt t0 nodes Q solve feval). Qed.
+
   (* explicit sweeper: both directions, no solver involved, any strictly lower-triangular QE *)
   Theorem C01_explicit_fixed_point_is_collocation : forall QE u f tau,
     feval_ext feval -> strictly_lower_triangular kO QE -> consistent kadd kmul M dt t0 nodes feval u f ->
@@ -82,6 +90,7 @@ End C01.
 Print Assumptions C01_fixed_point_is_collocation.
 Print Assumptions C01_collocation_is_fixed_point.
 Print Assumptions C01_imex_fixed_point_is_collocation.
+Print Assumptions C01_imex_collocation_is_fixed_point.
 Print Assumptions C01_explicit_fixed_point_is_collocation.
 Print Assumptions C01_explicit_collocation_is_fixed_point.
 Print Assumptions C01_multi_implicit_fixed_point_is_collocation.
